@@ -52,6 +52,8 @@ def make_bases(R):
 
     add("elfsec", "elf-xc_core", [P("elfsec")], [dg.write_elf_sections(P("elfsec"))], "write_elf_sections(p2m=True)")
     add("elfsecpfn", "elf-xc_core", [P("elfsecpfn")], [dg.write_elf_sections(P("elfsecpfn"), p2m=False)], "write_elf_sections(p2m=False)")
+    add("elfseclast", "elf-xc_core", [P("elfseclast")], [dg.write_elf_sections(P("elfseclast"), prstatus_last=True)],
+        "write_elf_sections(prstatus_last=True): .xen_prstatus ends at the page-aligned end of the file")
 
     pages = [1, 2, 3, 5, 9]
     info = dg.write_diskdump(P("dd"), pages, methods={2: "zlib", 3: "snappy", 5: "zstd"})
